@@ -48,4 +48,18 @@ CHECKS = {
            "by lxml is trusted; xs:any content excluded (open finding C04:any-content-tail-growth); namespace-prefix rewritings are not "
            "among the property's variants and are not modelled."),
  },
+ "C14": {
+  "category": "proof",
+  "technique": "Lean 4 proof over an executable hand model + model/implementation correspondence + reference oracle",
+  "design_ref": "DESIGN.md §5 C14; notes/C14.md",
+  "text": ("For an executable Lean model of Cell.get_all_segments_in_group / optimise_segment_group(s) (repaired code), for ALL cells: "
+           "c14_resolve_closure (resolution = transitive closure, each segment once), c14_resolve_terminates (every acyclic cell), "
+           "c14_optimise_preserves / c14_optimiseAll_preserves (closure of EVERY group unchanged), c14_optimise_minimal / "
+           "c14_optimiseAll_minimal (no duplicate member/include, no member an included group supplies), idempotence as equality of the "
+           "whole cell, frame and totality theorems; witnesses for the two repaired defects on the old loop. Tied by an exact-equality "
+           "correspondence (in memory and after an XML round trip) and an independent set-reachability oracle on the real code."),
+  "note": ("Hand-written model, tie is sampled (about 4000 cases quick / 24000 thorough); natsort modelled as a stable sort by a key "
+           "computed by the harness and checked against natsort on every case; lxml/generateDS parsing of member/include sampled; "
+           "malformed cells (cycles, duplicate group ids) covered by correspondence only."),
+ },
 }
